@@ -137,16 +137,21 @@ unsafe fn level_swap<M: Manager>(
                 match manager.get_node(c) {
                     Node::Inner(node) if node.level() == lower_no_pre => {
                         // We have exclusive access to the node
-                        let children: SmallVec<[_; 2]> =
-                            M::Rules::cofactors(c.tag(), node).collect();
+                        let children: SmallVec<[M::Edge; 2]> = M::Rules::cofactors(c.tag(), node)
+                            .map(|c| manager.clone_edge(&c))
+                            .collect();
                         debug_assert_eq!(children.len(), M::InnerNode::ARITY);
                         children
                     }
                     node => {
                         debug_assert!(node.level() > lower_no);
-                        // The child is below the lower level, so we always have
-                        // this child
-                        (0..M::InnerNode::ARITY).map(|_| c.borrowed()).collect()
+                        // The child is below the lower level. What the
+                        // cofactors with respect to the skipped level are
+                        // depends on the reduction rules (for BDDs, it is
+                        // always this child).
+                        (0..M::InnerNode::ARITY)
+                            .map(|i| M::Rules::cofactor_skipped(manager, c, i))
+                            .collect()
                     }
                 }
             })
@@ -181,7 +186,9 @@ unsafe fn level_swap<M: Manager>(
             })
             .collect();
 
-        drop(grandchildren);
+        for e in grandchildren.into_iter().flatten() {
+            manager.drop_edge(e);
+        }
         drop(children);
 
         for (i, child) in new_children.into_iter().enumerate() {
